@@ -4,7 +4,7 @@ from vlib import core, gen, behave, levelb, spec
 from vlib.props import c05
 
 LEVEL = "other"
-EXPLANATION = ("The lock/cache protocol is also modelled for ALL services and caches at once (one mutex per service id, cache 0 = container-wide, cache c+1 = bag of context c, a global allocation counter; Model/RuntimeConcMulti.lean): multi_reachable_inv, at_most_once_each (every shared service at most once, every contextual service at most once per context, whatever other threads do elsewhere), instances_never_shared (two different (cache, service) pairs never hold the same instance) for unboundedly many threads and arbitrary interleavings. Partial proof + search. Proved in Lean: helpers_stateless (regenerated template facts: one embedded field, no package-level variable, helpers are methods on the "
+EXPLANATION = ("The transition system is tied to the source of the runtime library the repository's go.mod pins: the statements of (*Container).get and (*Container).getParam are regenerated from the module cache on every run (Generated/Library.lean) and lib_get_protocol / lib_getParam_protocol / lib_get_caches / lib_get_stages show that the statements the transitions stand for occur there exactly once and in the order a thread passes them (Lock, deferred Unlock registered before the deferred store so that the store runs inside the critical section, cache look-up with return on hit, store only without error, then constructor, fields, calls, decorators). The lock/cache protocol is also modelled for ALL services and caches at once (one mutex per service id, cache 0 = container-wide, cache c+1 = bag of context c, a global allocation counter; Model/RuntimeConcMulti.lean): multi_reachable_inv, at_most_once_each (every shared service at most once, every contextual service at most once per context, whatever other threads do elsewhere), instances_never_shared (two different (cache, service) pairs never hold the same instance) for unboundedly many threads and arbitrary interleavings. Partial proof + search. Proved in Lean: helpers_stateless (regenerated template facts: one embedded field, no package-level variable, helpers are methods on the "
                "container) and, over the lock/cache protocol of get as a transition system with unboundedly many threads and arbitrary interleavings, reachable_inv / at_most_once "
                "(a shared service, a parameter, or a contextual service within one bag is successfully constructed at most once), cached_then_hit and cache_monotone. The per-id "
                "mutex enters by its contract (one holder). NOT provable in this family: data-race freedom in the Go memory-model sense, the runtime library's real lock "
@@ -14,7 +14,7 @@ EXPLANATION = ("The lock/cache protocol is also modelled for ALL services and ca
 TEXT = EXPLANATION
 TECHNIQUE = "Lean 4 invariant proof over a labelled transition system of the lock/cache protocol (unbounded threads/steps) + regenerated template statelessness facts; concurrent probe under the race detector as the search"
 LEAN_PROPS = ["C20"]
-TRUSTED = ["sync.Mutex mutual exclusion (contract of the per-id lock)", "Go race detector (search only)", "gontainer-helpers locking code is not modelled beyond the protocol"]
+TRUSTED = ["sync.Mutex mutual exclusion (contract of the per-id lock)", "Go race detector (search only)", "gontainer-helpers locking code is not modelled beyond the protocol; that the protocol IS the code's statement order is regenerated and proved (lib_get_protocol), that Go's defer order and sync.Mutex behave as documented is assumed"]
 ASSUMPTIONS = ["at most once counts successful constructions: the runtime deliberately does not cache a failing constructor"]
 
 
